@@ -7,7 +7,6 @@
 //! would.  Logged: what each snapshot recorded for the file (`seen`) and
 //! whether each SaveState really rewrote the state file.  TLC judges.
 use jj_lib::merged_tree::MergedTree;
-use jj_lib::repo::Repo as _;
 use jj_lib::working_copy::LockedWorkingCopy;
 use jjconf::util::Opts;
 use jjconf::util::Out;
